@@ -92,6 +92,9 @@ pub struct Ctx<'a> {
     pub world: &'a mut World,
     pub rng: &'a mut Rng,
     pub swarm: &'a Swarm,
+    pub adm: &'a crate::actors_adm::AdmSwarm,
+    /// per-mille share of scheduler steps given to the administrator / pause actors
+    pub adm_share: u32,
     pub mempool: Vec<(u32, Tx)>,
 }
 
@@ -901,6 +904,14 @@ pub fn step_mkt(sim: &mut Sim, ctx: &mut Ctx) {
         }
     }
 
+    if ctx.adm_share > 0 && ctx.adm.total() > 0 && ctx.rng.below(1000) < ctx.adm_share as u64 {
+        let adm = ctx.adm.clone();
+        if let Some(mut tx) = crate::actors_adm::step_adm(sim, ctx, &adm) {
+            sim.stats.fault("operator_churn");
+            submit(sim, ctx, &mut tx);
+        }
+        return;
+    }
     let s = ctx.swarm.clone();
     let weights = [
         s.w_deposit,
